@@ -3,13 +3,19 @@ from vlib import common as C
 from vlib import langsuite as L
 
 
-def run_one(prop, suite, tier, rule, assumptions, extra_thorough=(), gen=0):
+def run_one(prop, suite, tier, rule, assumptions, extra_thorough=(), gen=0, extra_always=()):
     """extra_thorough: further suites run in the thorough tier; gen: number of generated programs whose
     result-level disagreements attributed to `prop` are reported too (thorough tier)."""
     from vlib import gensuite as G
     chk = C.Check(prop, tier)
     results = [L.run_suite(chk, suite, tier)]
     bad, n = L.validate_events(chk, results[0]["events_path"], suite)
+    for s in extra_always:
+        r = L.run_suite(chk, s, tier)
+        b2, n2 = L.validate_events(chk, r["events_path"], s)
+        results.append(r)
+        bad += b2
+        n += n2
     if tier == "thorough":
         for s in extra_thorough:
             r = L.run_suite(chk, s, tier)
